@@ -65,6 +65,9 @@ for prop, patch in jobs:
                 classes += ["%s:%s" % (q, k) for k in re.findall(r"^  class (\S+)", r2.stderr, re.M)]
         if other:
             verdict = "CAUGHT-BY-" + "+".join(other)
+    if verdict.startswith("CHECK-BROKEN"):
+        os.makedirs(os.path.join(VERIF, "build", "logs"), exist_ok=True)
+        open(os.path.join(VERIF, "build", "logs", "check-broken-%s-%d.log" % (os.path.basename(os.path.dirname(patch)) or prop, os.getpid())), "w").write(r.stdout[-4000:] + "\n----\n" + r.stderr[-8000:])
     results.append((prop, name, verdict, base + " " + ",".join(classes)))
     print("%-4s %-60s %-12s %s" % results[-1], flush=True)
     head = subprocess.run(["git", "-C", "/repo", "rev-parse", "--short", "HEAD"], stdout=subprocess.PIPE, text=True).stdout.strip()
